@@ -77,6 +77,14 @@ type PConn struct {
 	mu    sync.Mutex
 	rd    time.Time
 	rdChg chan struct{}
+	rx    int
+}
+
+// Rx returns the number of packets delivered to this conn.
+func (c *PConn) Rx() int {
+	c.mu.Lock()
+	defer c.mu.Unlock()
+	return c.rx
 }
 
 // NewConn creates an unbound packet conn with the given local address.
@@ -141,6 +149,9 @@ func (c *PConn) WriteTo(p []byte, addr net.Addr) (int, error) {
 	k := pkt{data: append([]byte(nil), p...), from: c.laddr}
 	select {
 	case dst.ch <- k:
+		dst.mu.Lock()
+		dst.rx++
+		dst.mu.Unlock()
 	case <-dst.closed:
 	default:
 		s.mu.Lock()
